@@ -496,7 +496,11 @@ def execute(chk, cases, rundir, exes, drv):
 def run_check(chk, tier, seed, replay=None):
     t0 = time.time()
     pid = chk.pid
-    rundir = os.path.join(WORK, 'run', pid)
+    # one run directory per (repository, property): concurrent runs of the same check against different scratch
+    # copies do not share files; two runs of the same check against the same tree are serialised
+    rundir = os.path.join(WORK, 'run', pid if _SCR is None else pid + '_' + hashlib.sha1(REPO.encode()).hexdigest()[:10])
+    run_lock = Lock('run_' + os.path.basename(rundir))
+    run_lock.__enter__()
     shutil.rmtree(rundir, ignore_errors=True)
     os.makedirs(rundir)
     os.makedirs(REPLAY_DIR, exist_ok=True)
